@@ -47,7 +47,7 @@ static Plan nonce_api_generate(uint64_t seed, int tier) {
         if (g.chance(2, 5)) {
             o.k = "gen";
             int f = (faulty && g.chance(1, 3)) ? (int)g.range(1, G_NFAULTS - 1) : G_NONE;
-            o.a = {(int64_t)g.below(3), (int64_t)g.below(2), f, (int64_t)g.below(2), (int64_t)g.below(16)};
+            o.a = {(int64_t)g.below(3), (int64_t)g.below(2), f, (int64_t)g.below(2), (int64_t)g.below(16), g.chance(1, 4) ? (int64_t)g.range(1, 2) : 0};
         } else {
             o.k = "sign";
             int f = (faulty && g.chance(1, 2)) ? (int)g.range(1, S_NFAULTS - 1) : S_NONE;
@@ -104,7 +104,7 @@ static void nonce_api_execute(const Plan &p, const ExecOpts &, Result &r) {
             int api = (int)(o.arg(1) & 1), f = (int)(((o.arg(2) % G_NFAULTS) + G_NFAULTS) % G_NFAULTS), key = (int)(o.arg(3) & 1), mask = (int)(o.arg(4) & 15);
             if (api == 1 && f == G_ZERO_RAND) f = G_NONE;          // no randomness argument in the counter variant
             if (api == 1 && (f == G_SK_ZERO || f == G_SK_OVER)) f = G_ZERO_KEYOBJ;  // the key comes from the keypair object
-            std::string cell = std::string("gen") + (api ? "_counter" : "") + ":" + (s.live ? "live" : "zero") + ":" + GFN[f];
+            std::string cell = std::string("gen") + (api ? "_counter" : "") + ":" + (s.live ? "live" : "zero") + ":" + GFN[f] + ((api == 0 && o.arg(5) % 3) ? (o.arg(5) % 3 == 1 ? "+alias_extra" : "+alias_msg") : "");
             uint8_t secrand[32]; fresh32(secrand);
             if (f == G_ZERO_RAND) memset(secrand, 0, 32);
             uint8_t skarg[32]; memcpy(skarg, sk[key], 32);
@@ -116,6 +116,10 @@ static void nonce_api_execute(const Plan &p, const ExecOpts &, Result &r) {
             const unsigned char *marg = (mask & 2) ? msg[0] : NULL;
             uint8_t extra[32]; fresh32(extra);
             const unsigned char *earg = (mask & 4) ? extra : NULL;
+            // nothing forbids the caller from handing the same 32 bytes in as randomness and as extra input / message
+            int alias = (int)(o.arg(5) % 3);
+            if (api == 0 && alias == 1) earg = secrand;
+            if (api == 0 && alias == 2 && f != G_ZERO_RAND) marg = secrand;
             const unsigned char *skp = (api == 0 && (mask & 8) && f != G_SK_ZERO && f != G_SK_OVER) ? NULL : skarg;
             secp256k1_musig_pubnonce pn; memset(&pn, 0x5c, sizeof pn);
             int64_t ill0 = g_mon.illegal_count;
